@@ -535,11 +535,20 @@ class C11(Check):
     state_measure = ("(value kind, caches touched before export?, transport family, same process / other process "
                      "same seed / other hash seed, hop count) at each import")
     assumptions = [
-        "a node's PYTHONHASHSEED is one of six fixed values chosen by the tape; nodes are real CPython "
-        "processes importing the five packages from VERIF_REPO; between runs a process is reused after dropping "
-        "all held values (gc.collect()), so process-global state that Cirq keeps (resolver caches, functools "
-        "caches, weakly interned qubits still referenced by such caches) may carry over between runs: nodes "
-        "therefore report verdicts (booleans) and type names only",
+        "a node's PYTHONHASHSEED is one of six fixed values chosen by the tape; a node is a real CPython process: "
+        "a fork() of an interpreter that was started with that PYTHONHASHSEED, imported the five packages from "
+        "VERIF_REPO and did nothing else (one such 'zygote' per hash seed per check invocation, because a cold "
+        "import costs 3-5 s); every run gets nodes nobody used before, a restart is kill -9 plus a new fork from "
+        "another seed's zygote. Forks of one zygote share its address-space layout, so two nodes differ in "
+        "id-based hashes only if their hash seeds differ -- a run's nodes always have distinct seeds",
+        "nodes report verdicts (booleans) and type names only -- never hash values, addresses, reprs or set "
+        "orders -- so the event log cannot depend on anything but the tape (in the fallback mode "
+        "VERIF_NODE_MODE=spawn / VERIF_NODE_REUSE=N, where interpreters are reused across runs after a `reset`, "
+        "this is what keeps carried-over resolver / functools caches out of the log)",
+        "'equal behaviour' after JSON is decided against the locally rebuilt value only when that value writes "
+        "the very document that was read (otherwise an earlier repr/pickle hop, not this JSON hop, is where "
+        "the values diverged in something == does not look at); matrices are compared entry for entry, exactly, "
+        "ignoring dtype",
         "pickling / copying a class that cannot be pickled at all (exception raised outside the tree under test, "
         "also for a freshly built value) is recorded as unsupported, not as a violation; an exception raised by "
         "Cirq's own __getstate__/__reduce__ hooks, or one that appears only after the value's caches were "
@@ -553,9 +562,9 @@ class C11(Check):
     real_vs_stub = {
         "real": "cirq.to_json/read_json(+gzip), CirqEncoder/ObjectHook, every _json_dict_/_from_json_dict_, resolver "
                 "caches of the five packages, pickle/copy hooks (__getstate__, __getnewargs__), cached_method, "
-                "value_equality, Qid ordering -- in real, separate CPython interpreters with different hash seeds",
-        "stub": "nothing of Cirq; the 'network' and 'disk' are byte strings held by the coordinator, and node "
-                "restart is process kill + start",
+                "value_equality, Qid ordering -- in real, separate CPython processes with different hash seeds",
+        "stub": "nothing of Cirq; the 'network' and 'disk' are byte strings held by the coordinator; a node start "
+                "is a fork of a pre-imported interpreter with the chosen hash seed, a restart is kill -9 + new fork",
     }
     tiers = {"quick": {"runs": 4000, "wall": 80}, "thorough": {"runs": 90000, "wall": 1100}}
     per_run_timeout = 300
